@@ -524,7 +524,8 @@ fn render_puzzle(t: &mut Tape, root: usize, giv: &[Option<usize>]) -> String {
         if (i + 1) % sq == 0 && t.chance(200) {
             s.push('\n');
         } else if t.chance(40) {
-            s.push_str([" ", "\t", "  ", "\r\n"][t.choose(4)]);
+            // whitespace of every kind is ignored (also non-ASCII white space)
+            s.push_str([" ", "\t", "  ", "\r\n", "\u{a0}", "\u{2003}", "\u{3000}", "\u{b}"][t.choose(8)]);
         }
     }
     s
